@@ -312,3 +312,47 @@ fn c03_trampoline_rounds_measured_by_stack_depth_stay_within_the_limit() {
     }
     println!("CASES c03_trampolines {cases}");
 }
+
+/// the stages after execution halt too: masked values multiplied / divided by every kind of small and large constant (odd,
+/// even but not a power of two, powers of two, boundary words) go through the lifting passes' own loops
+#[test]
+fn c03_lifting_of_multipliers_and_divisors_returns() {
+    use std::{sync::mpsc, time::Duration};
+    use storage_layout_extractor::{self as sle, extractor::{chain::{version::EthereumVersion, Chain}, contract::Contract}};
+    std::panic::set_hook(Box::new(|_| {}));
+    let one = ethnum::U256::ONE;
+    let consts = [ethnum::U256::new(3), ethnum::U256::new(6), ethnum::U256::new(10), ethnum::U256::new(12), ethnum::U256::new(100), ethnum::U256::new(1000), ethnum::U256::new(0xff00), ethnum::U256::new(48),
+        ethnum::U256::new((1u128 << 63) + (1 << 62)), ethnum::U256::new((1u128 << 64) + 6), (one << 200u32) + (one << 3u32), ethnum::U256::MAX - one, ethnum::U256::new(1 << 20), one << 255u32];
+    let mut cases = 0;
+    let mut hung = 0;
+    for c in consts {
+        for shape in 0..3 {
+            if hung >= 3 { continue; }
+            let mut code: Vec<u8> = vec![];
+            let pw = |code: &mut Vec<u8>, w: ethnum::U256| { code.push(0x7f); code.extend(w.to_be_bytes()); };
+            match shape {
+                // sstore(1, C * (sload(0) & 0xff))
+                0 => { code.extend([0x60, 0xff, 0x60, 0x00, 0x54, 0x16]); pw(&mut code, c); code.extend([0x02, 0x60, 0x01, 0x55, 0x00]); }
+                // sstore(1, (sload(0) / C) & 0xff)
+                1 => { code.extend([0x60, 0xff]); pw(&mut code, c); code.extend([0x60, 0x00, 0x54, 0x04, 0x16, 0x60, 0x01, 0x55, 0x00]); }
+                // sstore(1, (cd(0) & 0xffff) * C | (cd(32) & 0xff))
+                _ => { code.extend([0x61, 0xff, 0xff, 0x60, 0x00, 0x35, 0x16]); pw(&mut code, c); code.extend([0x02, 0x60, 0xff, 0x60, 0x20, 0x35, 0x16, 0x17, 0x60, 0x01, 0x55, 0x00]); }
+            }
+            cases += 1;
+            let (tx, rx) = mpsc::channel();
+            let c2 = code.clone();
+            let _ = std::thread::spawn(move || {
+                let r = std::panic::catch_unwind(move || {
+                    let contract = Contract::new(c2, Chain::Ethereum { version: EthereumVersion::Shanghai });
+                    let _ = sle::new(contract, Config::default(), sle::tc::Config::default(), LazyWatchdog.in_rc()).analyze();
+                });
+                let _ = tx.send(r.is_ok());
+            });
+            if rx.recv_timeout(Duration::from_secs(60)).is_err() {
+                hung += 1;
+                witness("C03", "limits.analysis_returns", format!("masked value combined with the constant {c:#x} (shape {shape}): {code:02x?}"), "analyze() did not return within 60 s".into(), "a layout or an error".into());
+            }
+        }
+    }
+    println!("CASES c03_lifting_constants {cases}");
+}
